@@ -22,6 +22,7 @@ def run(check):
     check.guarded("PAREN-WRAP", X.rule_paren_wrap)
     check.guarded("FANOUT", X.rule_fanout)
     check.guarded("OPTCHAIN-LOWERING", X.rule_optchain_lowering)
+    check.guarded("CALL-EMISSION", X.rule_call_emission)
     from . import c04
 
     check.guarded("ARROW-BLOCK", c04.rule_arrow_block)
